@@ -12,7 +12,7 @@ import (
 )
 
 func init() {
-	register("C16", "Token limit: (R1) tokens are consumed at a single point — ReadToken is called only by the look-ahead and the advance function, the current token and the look-ahead flag are rewritten only by the advance function (or a helper called only from it), and the counter has one store, +1, dominating every consumption; (R2) exactness — along every path of the advance function the branch conditions over (count, limit) imply `limit = 0 or count <= limit` at each consumption and `limit != 0 and count >= limit+1` at the limit error (interval reasoning over d = count-limit and limit), and every return follows a consumption or an error; (R3) each limited entry point stores its limit parameter into every parser it creates, forwards it to every entry point it calls, and a parser is pointed at a source only when freshly created; (R4) each limited entry point agrees with its unlimited twin on callees and stored fields; (R5) recursion depth of the parser is bounded by consumed tokens (shared with C01.R6). (R6) no branch outside the advance function and its private helpers reads the token counter or the limit.", runC16)
+	register("C16", "Token limit: (R1) tokens are consumed at a single point — ReadToken is called only by the look-ahead and the advance function, the current token and the look-ahead flag are rewritten only by the advance function (or a helper called only from it), and the counter has one store, +1, dominating every consumption; (R2) exactness — along every path of the advance function the branch conditions over (count, limit) imply `limit = 0 or count <= limit` at each consumption and `limit != 0 and count >= limit+1` at the limit error (interval reasoning over d = count-limit and limit), and every return follows a consumption or an error; (R3) each limited entry point stores its limit parameter into every parser it creates, forwards it to every entry point it calls, and a parser is pointed at a source only when freshly created; (R4) each limited entry point agrees with its unlimited twin on callees and stored fields; (R5) recursion depth of the parser is bounded by consumed tokens (shared with C01.R6). (R6) no branch outside the advance function and its private helpers reads the token counter or the limit. (R7) no consuming call is asked for the end-of-input kind.", runC16)
 }
 
 // lin is a*count_after + b*limit + k.
@@ -691,6 +691,40 @@ func runC16(c *Ctx) {
 			outside++
 			r6.Fail(fa.Pos(), p.FuncName(fn), "branch on parser."+name+" outside the advance function", fmt.Sprintf("%s decides on parser.%s; the limit verdict must be a function of the number of tokens consumed alone, taken where they are consumed (%s): a second decision point makes the outcome depend on look-ahead state", p.FuncName(fn), name, nextName))
 		})
+	}
+	// --- R7 the end-of-input marker is never consumed: it is not a token of the input and must not be counted
+	r7 := c.Rule("R7", "no consuming call is asked for the end-of-input kind", 1)
+	{
+		f := newParserFlow(m)
+		eof := eofKind(p)
+		n, nbad := 0, 0
+		for _, fn := range m.fns {
+			allInstrs(fn, func(in ssa.Instruction) {
+				ci, ok := in.(ssa.CallInstruction)
+				if !ok {
+					return
+				}
+				g := ci.Common().StaticCallee()
+				if g == nil || !f.mayConsume[g] {
+					return
+				}
+				for _, a := range ci.Common().Args {
+					if nm := namedOf(a.Type()); nm == nil || nm.Obj().Name() != "Type" || nm.Obj().Pkg() == nil || nm.Obj().Pkg().Name() != "lexer" {
+						continue
+					}
+					n++
+					if k, isC := constInt(a); isC && k == eof {
+						nbad++
+						r7.Fail(ci.Pos(), p.FuncName(fn), "consuming call "+g.Name()+"(EOF)", fmt.Sprintf("%s is asked to consume the end-of-input marker: it goes through %s, is counted as a token and checked against the limit, so an input with exactly `limit` tokens is rejected by this grammar", g.Name(), nextName))
+					}
+				}
+			})
+		}
+		if n < 20 {
+			r7.AnchorLost(fmt.Sprintf("calls of consuming functions with a token kind argument (%d found, at least 20 expected)", n))
+		} else if nbad == 0 {
+			r7.OK(fmt.Sprintf("%d consuming calls with a token kind argument", n), "none asks for EOF; the grammars stop at EOF by looking at it only")
+		}
 	}
 	if inNext == 0 {
 		r6.AnchorLost("a branch on the counter or the limit in the advance function")
